@@ -55,6 +55,7 @@ type cacheRun struct {
 	opi                      int
 	inBatch                  bool
 	asyncVals                map[int]bool // values written through SetAsync
+	syncVals                 map[int]bool // values written by a synchronous Set at a quiescent point
 	forceQueue, holding      bool         // this trace routes async batches through the ring (drain tokens held by the harness)
 	dead                     bool
 	hits, misses, capN, expN int64
@@ -95,7 +96,7 @@ var dbgTrace = os.Getenv("VERIF_DBG") != ""
 func newCacheRun(m *meta, rng *rand.Rand, tid int, conf kioshun.Config, lst, wmode int, focus string) *cacheRun {
 	r := &cacheRun{m: m, tid: tid, conf: conf, lst: lst, wmode: wmode, focus: focus,
 		costOf: map[int]int64{}, latest: map[int]int{}, deadline: map[int]int64{}, ttlOf: map[int]int64{},
-		written: map[int]int{}, asyncVals: map[int]bool{}, state: map[int]int{}, touch: map[int]int{}, born: map[int]int{}, reads: map[int]int{}}
+		written: map[int]int{}, asyncVals: map[int]bool{}, syncVals: map[int]bool{}, state: map[int]int{}, touch: map[int]int{}, born: map[int]int{}, reads: map[int]int{}}
 	var opts []kioshun.Option[int, int]
 	if wmode > 0 {
 		opts = append(opts, kioshun.WithWeigher(r.weigher))
@@ -472,6 +473,9 @@ func (r *cacheRun) step(w *traceWriter, kind opKind, k int, ttl int64, cost int6
 	pv0, wasRes0 := pre[k]
 	if kind == opSet && setErr == nil {
 		r.noteWrite(k, newVal, ttl, wasRes0, pv0)
+		if !wasBatch {
+			r.syncVals[newVal] = true
+		}
 	}
 	// C06 ledger
 	for _, n := range notifs {
@@ -777,6 +781,35 @@ func (r *cacheRun) step(w *traceWriter, kind opKind, k int, ttl int64, cost int6
 				delete(r.born, pk)
 				delete(r.reads, pk)
 			}
+		}
+	}
+}
+
+// audit (C06 conservation over the whole history, with OnRemove installed and before Close): every value ever
+// written is resident, was replaced, was cleared, or was notified.
+func (r *cacheRun) audit() {
+	if r.lst&1 == 0 || r.dead || r.c.VerifClosed() || !r.quiescent() {
+		return
+	}
+	r.waitApplied()
+	r.settle()
+	for _, n := range r.takeNotifs() {
+		if r.state[n.v] == 0 || r.state[n.v] == 4 {
+			r.state[n.v] = 3
+		}
+	}
+	post := r.resident()
+	lost := 0
+	for v, k := range r.written {
+		if st := r.state[v]; st != 0 || !r.syncVals[v] {
+			continue
+		}
+		if pv, in := post[k]; in && pv == v {
+			continue
+		}
+		lost++
+		if lost <= 2 {
+			r.viol("C06", fmt.Sprintf("conservation: entry (%d,v%d) was written, is not resident, was neither replaced nor cleared, and no notification was ever delivered for it", k, v))
 		}
 	}
 }
@@ -1140,6 +1173,7 @@ func streamCache(o opts, focus string) {
 		if r.expN > 0 || r.c.Stats().Expirations > 0 {
 			sawExp = true
 		}
+		r.audit()
 		before := runtime.NumGoroutine()
 		r.step(w, opClose, 0, 0, 0, 0)
 		_ = before
